@@ -949,7 +949,7 @@ main(int argc, char** argv)
     c.tof_bins = 5;
     full.push_back(build_geo(c, next_id++));
   }
-  const int nrandom_full = thorough ? 10 : 1;
+  const int nrandom_full = thorough ? 30 : 3;
   for (int k = 0; k < nrandom_full; ++k)
     full.push_back(build_geo(random_spec(rng, !thorough), next_id++));
 
@@ -981,7 +981,7 @@ main(int argc, char** argv)
     e.origin_planes = .5F;
     sampled.push_back(build_geo(e, next_id++));
   }
-  for (int k = 0; k < (thorough ? 12 : 2); ++k)
+  for (int k = 0; k < (thorough ? 30 : 4); ++k)
     sampled.push_back(build_geo(random_spec(rng, false), next_id++));
 
   // ---- section A
@@ -1047,7 +1047,7 @@ main(int argc, char** argv)
                 return 3;
               }
       }
-    const int nhist = thorough ? 60 : 12;
+    const int nhist = thorough ? 160 : 16;
     for (int h = 0; h < nhist; ++h)
       history(h % 4 == 3 ? group3 : (h % 4 == 2 ? group2 : group1), rng, thorough ? 300 : 160);
     // error branch of set_up: z origin not a whole number of planes
